@@ -20,7 +20,8 @@ EXPLANATION = (
     "every variant, arrays following their element type.  (R9) where the default type of a bare name is computed and existing entries of the name are separated into suffix-style and AS-style ones, a suffix-style entry is taken for the bare name only after its type was compared with the default type."
     " (R12) every place of the declaration rules that makes the type of a new variable is dominated by a call that reaches the lookup collecting the entries of the name in the current scope and the SHARED ones of the module level in every style: a declaration in a SUB cannot take a name away from a SHARED variable."
     " (R13) wherever a context holding the DEFtype letter table is built the table is a fresh one: every pass over the program starts from the default table."
-    " (R14) among the checks the declaration rules run against the table of functions one is strict: a DIM cannot take the name of a FUNCTION.")
+    " (R14) among the checks the declaration rules run against the table of functions one is strict: a DIM cannot take the name of a FUNCTION."
+    " (R15) every comparison of two texts in the front end and the VM either folds letter case or is tabled as comparing run-time data (shared with C09.R2): the FIELD / LSET lookup of a variable by the text of its name included.")
 NOT_DECIDED = ["the resolution outcome for arbitrary combinations of declarations (run of the converter)"]
 
 NAMES = "Names"
@@ -1094,3 +1095,6 @@ def run(ctx):
     r12_every_definition_looks_at_the_shared_names(ctx)
     r13_every_pass_starts_from_the_default_letter_table(ctx)
     r14_a_variable_cannot_take_the_name_of_a_function(ctx)
+    # FIELD / LSET identify a variable by the text of its name at run time: every comparison of program text
+    # anywhere in the front end and the VM folds letter case (the enumeration of C09.R2)
+    c09.r2_raw_comparisons(ctx, "C13.R15")
